@@ -172,8 +172,8 @@ pub fn run(args: &crate::Args) {
                             };
                             let collides = members.iter().any(|m| ident(m) == ident(q));
                             fail(
-                                if collides { "nonmember-resolved-identifier-collision" } else { "nonmember-resolved" },
-                                format!("static_name({q:?}) was not added but resolved to {found:?} (a silently wrong URL)"),
+                                "nonmember-resolved",
+                                format!("static_name({q:?}) was not added but resolved to {found:?} (a silently wrong URL{})", if collides { "; the name shares its Rust identifier with a file that was added" } else { "" }),
                             );
                         } else if found.as_ref() != want_url.map(|(_, u)| u) {
                             fail("wrong-url", format!("static_name({q:?}) gave {found:?}, published name is {:?}", want_url.map(|(_, u)| u)));
@@ -184,7 +184,21 @@ pub fn run(args: &crate::Args) {
                     }
                     (Err(e), _) => {
                         writeln!(imp, "none").unwrap();
-                        if is_member {
+                        // two added files with one Rust identifier (`a b.css`, `a.b.css`): the later one replaces the
+                        // earlier in get_names() and the generated module cannot compile (duplicate static) — asking
+                        // for the replaced one is an error, not a silently wrong URL
+                        let ident = |n: &str| -> String {
+                            let mut m: String = n.chars().map(|c| if c.is_alphanumeric() { c } else { '_' }).collect();
+                            if m.chars().next().map_or(true, |c| c.is_ascii_digit()) {
+                                m.insert(0, 'n');
+                            }
+                            m
+                        };
+                        let twin = members.iter().any(|m| *m != q.as_str() && ident(m) == ident(q));
+                        if twin {
+                            stats.hit("query.member_replaced_by_identifier_twin");
+                        }
+                        if is_member && !twin {
                             fail("member-not-found", format!("static_name({q:?}) failed although the file was added before: {e:?}"));
                         }
                     }
